@@ -204,9 +204,18 @@ PDB_COLUMNS = [
 ]
 
 
-def columns_of_slice(lo, hi):
-    """Names of PDB fields touched by line[lo:hi]."""
-    return [name for name, a, b in PDB_COLUMNS if lo < b and hi > a]
+PDB_GAPS = [('gap11', 11, 12), ('gap20', 20, 21), ('gap27', 27, 30),
+            ('gap66', 66, 76)]
+
+
+def columns_of_slice(lo, hi, gaps=True):
+    """Names of PDB fields (and unassigned gaps) touched by line[lo:hi];
+    hi None = to the end of the record."""
+    if hi is None:
+        hi = 80
+    cols = PDB_COLUMNS + (PDB_GAPS if gaps else [])
+    return [name for name, a, b in sorted(cols, key=lambda c: c[1])
+            if lo < b and hi > a]
 
 
 def subscript_range(node, env=None):
